@@ -37,8 +37,9 @@ import (
 	"github.com/buchgr/bazel-remote/v2/cache/disk"
 	"github.com/buchgr/bazel-remote/v2/config"
 	"github.com/buchgr/bazel-remote/v2/utils/flags"
-	"github.com/urfave/cli/v2"
+	"github.com/buchgr/bazel-remote/v2/utils/idle"
 	"github.com/prometheus/client_golang/prometheus"
+	"github.com/urfave/cli/v2"
 	"golang.org/x/sync/semaphore"
 	"google.golang.org/grpc"
 	"google.golang.org/grpc/codes"
@@ -79,7 +80,9 @@ func vMakeCert(t *testing.T, cn string, isCA bool, parent *x509.Certificate, par
 	return cert, key, der
 }
 
-func vPEM(typ string, der []byte) []byte { return pem.EncodeToMemory(&pem.Block{Type: typ, Bytes: der}) }
+func vPEM(typ string, der []byte) []byte {
+	return pem.EncodeToMemory(&pem.Block{Type: typ, Bytes: der})
+}
 
 func vMakePKI(t *testing.T, dir string) *vPKI {
 	ca, caKey, caDER := vMakeCert(t, "verif-ca", true, nil, nil)
@@ -125,12 +128,14 @@ func TestVerifAuthExhaustive(t *testing.T) {
 	creds := []string{"none", "malformed", "unknown", "wrongpw", "valid"}
 
 	cfgNo := 0
-	for _, mode := range []string{"none", "basic", "mtls"} {
+	for _, mode := range []string{"none", "basic", "mtls", "basictls"} {
 		for _, reads := range []bool{false, true} {
 			if mode == "none" && reads {
 				continue // rejected by validateConfig
 			}
-			for _, metrics := range []bool{false, true} {
+			for _, variant := range []string{"plain", "metrics", "idle"} {
+				metrics := variant == "metrics"
+				withIdle := variant == "idle" // a non-zero idle_timeout wraps the handlers once more
 				cfgNo++
 				rec.Case()
 				dir := filepath.Join(base, fmt.Sprintf("c%d", cfgNo))
@@ -138,8 +143,14 @@ func TestVerifAuthExhaustive(t *testing.T) {
 				hsock := filepath.Join(dir, "h.sock")
 				gsock := filepath.Join(dir, "g.sock")
 				yaml := fmt.Sprintf("dir: %s\nmax_size: 1\nhttp_address: unix://%s\ngrpc_address: unix://%s\nexperimental_remote_asset_api: true\nenable_endpoint_metrics: %v\n", filepath.Join(dir, "cache"), hsock, gsock, metrics)
-				if mode == "basic" {
+				if mode == "basic" || mode == "basictls" {
 					yaml += "htpasswd_file: " + htpasswd + "\n"
+				}
+				if mode == "basictls" { // server certificate without client-certificate authentication
+					yaml += fmt.Sprintf("tls_cert_file: %s\ntls_key_file: %s\n", pki.srvCert, pki.srvKey)
+				}
+				if withIdle {
+					yaml += "idle_timeout: 1h\n"
 				}
 				if mode == "mtls" {
 					yaml += fmt.Sprintf("tls_ca_file: %s\ntls_cert_file: %s\ntls_key_file: %s\n", pki.caPEM, pki.srvCert, pki.srvKey)
@@ -169,11 +180,20 @@ func TestVerifAuthExhaustive(t *testing.T) {
 				}
 				var hs *http.Server
 				var gs *grpc.Server
-				go func() { _ = startHttpServer(c, &hs, secrets, nil, semaphore.NewWeighted(1), dc) }()
-				go func() { _ = startGrpcServer(c, &gs, secrets, nil, semaphore.NewWeighted(1), dc) }()
+				var it *idle.Timer
+				if withIdle {
+					it = idle.NewTimer(c.IdleTimeout, make(chan struct{}, 1))
+				}
+				go func() { _ = startHttpServer(c, &hs, secrets, it, semaphore.NewWeighted(1), dc) }()
+				go func() { _ = startGrpcServer(c, &gs, secrets, it, semaphore.NewWeighted(1), dc) }()
 				vWaitSock(hsock)
 				vWaitSock(gsock)
-				cfgS := fmt.Sprintf("mode=%s reads=%d metrics=%d", mode, b2i(reads), b2i(metrics))
+				amode := mode // authentication mode as the model knows it
+				if mode == "basictls" {
+					amode = "basic"
+				}
+				cfgS := fmt.Sprintf("mode=%s reads=%d metrics=%d", amode, b2i(reads), b2i(metrics))
+				rec.Note(fmt.Sprintf("server: mode=%s reads=%v variant=%s", mode, reads, variant))
 
 				// ---------------- HTTP
 				for _, ep := range []string{"status", "metrics", "cas", "ac", "bad"} {
@@ -269,7 +289,7 @@ func TestVerifAuthExhaustive(t *testing.T) {
 		}
 	}
 	rec.Set("exhaustive", true)
-	rec.Set("rule", "exhaustive: {none, htpasswd, mTLS} x allow_unauthenticated_reads x endpoint metrics (10 server instances) x {5 HTTP endpoints x 5 methods, every method of every registered gRPC service + 2 unregistered} x credential states; each (config, request, credential) triple is one distinct case")
+	rec.Set("rule", "exhaustive: {none, htpasswd, mTLS, htpasswd behind a server certificate} x allow_unauthenticated_reads x {plain, endpoint metrics, idle_timeout set} (21 server instances) x {5 HTTP endpoints x 5 methods, every method of every registered gRPC service + 2 unregistered} x credential states; each (config, request, credential) triple is one distinct case")
 }
 
 // vLoadConfig goes through the real start-up path: urfave/cli flags + config.Get (which also builds
@@ -303,6 +323,10 @@ func vHTTP(sock, mode string, pki *vPKI, method, url, cred string, blob []byte) 
 		return (&net.Dialer{}).DialContext(ctx, "unix", sock)
 	}, DisableKeepAlives: true}
 	scheme := "http"
+	if mode == "basictls" {
+		scheme = "https"
+		tr.TLSClientConfig = &tls.Config{RootCAs: pki.pool, ServerName: "localhost"}
+	}
 	if mode == "mtls" {
 		scheme = "https"
 		tc := &tls.Config{RootCAs: pki.pool, ServerName: "localhost"}
@@ -321,7 +345,7 @@ func vHTTP(sock, mode string, pki *vPKI, method, url, cred string, blob []byte) 
 		body = bytes.NewReader(blob)
 	}
 	req, _ := http.NewRequest(method, scheme+"://localhost"+url, body)
-	if mode == "basic" {
+	if mode == "basic" || mode == "basictls" {
 		switch cred {
 		case "malformed":
 			req.Header.Set("Authorization", "Basic !!!notbase64")
@@ -356,6 +380,8 @@ func vGRPC(sock, mode string, pki *vPKI, full string, stream bool, cred string) 
 			tc.GetClientCertificate = func(*tls.CertificateRequestInfo) (*tls.Certificate, error) { return &uc, nil }
 		}
 		dopt = grpc.WithTransportCredentials(credentials.NewTLS(tc))
+	} else if mode == "basictls" {
+		dopt = grpc.WithTransportCredentials(credentials.NewTLS(&tls.Config{RootCAs: pki.pool, ServerName: "localhost"}))
 	} else {
 		dopt = grpc.WithTransportCredentials(insecure.NewCredentials())
 	}
@@ -366,7 +392,7 @@ func vGRPC(sock, mode string, pki *vPKI, full string, stream bool, cred string) 
 	defer conn.Close()
 	ctx, cancel := context.WithTimeout(context.Background(), 10*time.Second)
 	defer cancel()
-	if mode == "basic" {
+	if mode == "basic" || mode == "basictls" {
 		switch cred {
 		case "malformed":
 			ctx = metadata.AppendToOutgoingContext(ctx, "authorization", "Basic !!!notbase64")
